@@ -399,6 +399,80 @@ Theorem sendpb_skip_empty_refuted :
   [ROk 6 (Msg "alice" 1 true ""); ROk 6 (Msg "alice" 1 true "")].
 Proof. reflexivity. Qed.
 
+(* ---------- SendToAll: slot i is the reply of server i ---------------------------------------- *)
+
+Lemma set_nth_app_length {A} (pre : list A) x y rest :
+  set_nth (pre ++ x :: rest) (List.length pre) y = (pre ++ y :: rest)%list.
+Proof. induction pre as [|a pre IH]; simpl; [reflexivity|now rewrite IH]. Qed.
+
+Lemma to_all_loop_spec : forall outs pre,
+  to_all_loop (List.length pre) outs (pre ++ repeat None (List.length outs)) = (pre ++ outs)%list.
+Proof.
+  induction outs as [|o r IH]; intro pre; simpl; [reflexivity|].
+  assert ((match o with Some _ => set_nth (pre ++ None :: repeat None (List.length r)) (List.length pre) o
+                      | None => (pre ++ None :: repeat None (List.length r))%list end)
+          = ((pre ++ [o]) ++ repeat None (List.length r))%list) as ->.
+  { rewrite <- app_assoc. simpl. destruct o; [apply set_nth_app_length|reflexivity]. }
+  replace (S (List.length pre)) with (List.length (pre ++ [o])) by (rewrite app_length; simpl; lia).
+  rewrite IH, <- app_assoc. reflexivity.
+Qed.
+
+(* every roster, whoever fails: one slot per server, slot i = the reply of server i, empty
+   where the request to server i failed; an error is returned iff some request failed *)
+Theorem send_to_all_slots outs :
+  fst (send_to_all outs) = outs /\ snd (send_to_all outs) = existsb is_none outs.
+Proof. split; [apply (to_all_loop_spec outs [])|reflexivity]. Qed.
+
+(* the variant that appends the successes: after a failure that is not the last, slot 0
+   holds the reply of server 1 *)
+Theorem send_to_all_compact_refuted :
+  fst (send_to_all_compact [None; Some (ROk 6 (Msg "q" 1 true ""))]) = [Some (ROk 6 (Msg "q" 1 true ""))].
+Proof. reflexivity. Qed.
+
+(* ---------- what a handler keeps stays what the request carried ------------------------------ *)
+
+(* the store of the model, seen as a key -> data map *)
+Definition store_map (st : sstore) (m : list (string * string)) : Prop :=
+  forall k, match slookup k st with
+            | Some (VData d, _) => find (fun e => String.eqb k (fst e)) m = Some (match find (fun e => String.eqb k (fst e)) m with Some e => e | None => (k, d) end)
+                                   /\ (match find (fun e => String.eqb k (fst e)) m with Some e => snd e | None => "" end) = d
+            | Some (VClobbered, _) => False
+            | None => find (fun e => String.eqb k (fst e)) m = None
+            end.
+
+Lemma store_run_spec keeps : forall ops st m,
+  store_map st m -> store_run false keeps st ops = store_spec m ops.
+Proof.
+  induction ops as [|o r IH]; intros st m Hm; [reflexivity|].
+  simpl. unfold store_step.
+  assert ((match match nth_error keeps (so_client o) with Some true => Some (so_client o) | _ => None end with
+           | Some c => if false then clobber c st else st | None => st end) = st) as ->.
+  { destruct (match nth_error keeps (so_client o) with Some true => Some (so_client o) | _ => None end); reflexivity. }
+  destruct (so_kind o) as [k d|k].
+  - f_equal. apply IH. intro k'. simpl. destruct (String.eqb k' k) eqn:E.
+    + split; reflexivity.
+    + apply Hm.
+  - f_equal; [|now apply IH]. specialize (Hm k).
+    destruct (slookup k st) as [[[d|] c]|].
+    + destruct Hm as [_ H]. now rewrite H.
+    + destruct Hm.
+    + now rewrite Hm.
+Qed.
+
+(* Any sequence of Put / Get of any clients over kept and single-use connections: Get
+   returns the data of the last Put of that key, whatever requests came in between and
+   on whichever connection. *)
+Theorem store_get_returns_put keeps ops : store_run false keeps [] ops = store_spec [] ops.
+Proof. apply store_run_spec. intro k. reflexivity. Qed.
+
+(* one read buffer per connection: what request 1 stored is overwritten by request 2 on
+   the same kept connection *)
+Theorem store_reuse_buffer_refuted :
+  let ops := [SOp 0 (SPut "k1" "AAAA"); SOp 0 (SPut "k2" "BBBB"); SOp 0 (SGet "k1")] in
+  store_run true [true] [] ops <> store_spec [] ops /\
+  store_run true [false] [] ops = store_spec [] ops.
+Proof. split; [vm_compute; discriminate|vm_compute; reflexivity]. Qed.
+
 (* ---------- the panic barrier, every kind of handler -------------------------------------- *)
 
 Theorem barrier_all_kinds : forall streaming h m, call_interface true streaming h m <> CCrash.
